@@ -1,13 +1,17 @@
 """C10 - data round-trips and every result is finalised into plain data."""
 from vlib import core
-from props._common import pyvc_units
+from props._common import pyvc_units, frame_unit
 from contracts import utils, core_glue
 
 LEVEL = 'proof'
 TECHNIQUE = ('pyvc contracts on the real convert_output_data for every kind '
              'of value (mapping, tuple, list, set, lazy iterable, scalar) '
              'under all four option combinations, with the recursive call '
-             'abstracted by its own contract (structural induction)')
+             'abstracted by its own contract (structural induction); '
+             'contracts on Statement.__call__ (finaliser chosen per call '
+             'from the context of that call) and on both YaqlInterface '
+             'call paths (exactly one unconditional convert_output_data); '
+             'frames for the statement / interface / conversion functions')
 LEVEL_TEXT = ('For each container kind and each of the 4 combinations of '
               'convertTuplesToLists x convertSetsToLists the result of one '
               'level of convert_output_data is a fresh dict / list / tuple / '
@@ -74,4 +78,7 @@ def units(ctx):
            for c in utils.contracts() if 'C10-probe' in c.serves]
     us.append(core.Unit('finalize-probe', hashability_probe, 'cpython'))
     us += pyvc_units(core_glue.contracts(), 'C10', core_glue.setup)
+    us += [contract_unit(c, world_setup=st)
+           for c, st in core_glue.yi_contracts()]
+    us.append(frame_unit('C10'))
     return us
